@@ -297,3 +297,23 @@ func ReporterClosureBad(r *model3d.Ray, f func(model3d.RayCollision)) int {
 	report(0)
 	return n
 }
+
+// clean:A3.CNT clean:A3.GUARD clean:A3.NILDEP the wrapper closure is held in a local that stays nil without a callback.
+func (s *shape) WrapThroughLocal(r *model3d.Ray, f func(model3d.RayCollision)) int {
+	var callback func(model3d.RayCollision)
+	if f != nil {
+		callback = func(rc model3d.RayCollision) {
+			f(rc)
+		}
+	}
+	return s.inner.RayCollisions(r, callback)
+}
+
+// want:A3.GUARD the local wrapper closure is built whether or not there is a callback.
+func (s *shape) WrapThroughLocalUnguarded(r *model3d.Ray, f func(model3d.RayCollision)) int {
+	var callback func(model3d.RayCollision)
+	callback = func(rc model3d.RayCollision) {
+		f(rc)
+	}
+	return s.inner.RayCollisions(r, callback)
+}
